@@ -31,6 +31,7 @@ import (
 	"github.com/siglens/siglens/pkg/segment/query/iqr"
 	"github.com/siglens/siglens/pkg/segment/structs"
 	sutils "github.com/siglens/siglens/pkg/segment/utils"
+	"github.com/siglens/siglens/pkg/utils"
 )
 
 type inputlookupProcessor struct {
@@ -97,6 +98,9 @@ func (p *inputlookupProcessor) Process(inpIqr *iqr.IQR) (*iqr.IQR, error) {
 	}
 	filename := p.options.Filename
 
+	if !utils.IsSafePathComponent(filename) {
+		return nil, fmt.Errorf("inputlookupProcessor.Process: invalid lookup file name %q", filename)
+	}
 	if !isCSVFormat(filename) {
 		return nil, fmt.Errorf("inputlookupProcessor.Process: Only .csv and .csv.gz formats are currently supported")
 	}
